@@ -28,6 +28,7 @@ Inductive ty : Type :=
 Definition W_SKIP : N := 0%N.
 Definition W_IGNORE : N := 1%N.
 Definition W_FORWARD : N := 2%N.
+Definition W_TYPES : N := 3%N.     (* the identifier `types` of the legacy syntax `#[from(types(..))]` *)
 
 (* syn::Path::is_ident on an argument that was parsed as a path *)
 Definition is_word (t : ty) (w : N) : bool :=
@@ -93,6 +94,35 @@ Definition validate_type (n : nat) (t : ty) : option (list ty) :=
   | other => if 1 <? n then None else Some [other]
   end.
 
+(* The diagnostic validate_type reports (utils.rs:2211-2285), without its rendering of the types:
+   "wrong tuple length: expected E, found F. Consider adding E-F more type(s)",
+   "... Consider removing last F-E type(s)", the single-field `()` message, "expected tuple: `(T, _, ..)`" *)
+Inductive vdiag : Type :=
+| DAddMore (expected found : nat)
+| DRemoveLast (expected found : nat)
+| DUnitForOne
+| DExpectedTuple (expected : nat).
+
+Definition validate_diag (n : nat) (t : ty) : option vdiag :=
+  match t with
+  | TTuple elems =>
+      if 1 <? n then
+        match Nat.compare n (length elems) with
+        | Gt => Some (DAddMore n (length elems))
+        | Lt => Some (DRemoveLast n (length elems))
+        | Eq => None
+        end
+      else if (n =? 1) && is_nil elems then Some DUnitForOne
+      else None
+  | _ => if 1 <? n then Some (DExpectedTuple n) else None
+  end.
+
+Fixpoint first_some {A B} (f : A -> option B) (l : list A) : option B :=
+  match l with
+  | [] => None
+  | x :: r => match f x with Some b => Some b | None => first_some f r end
+  end.
+
 (* ================================================================== From *)
 
 (* one `#[from...]` attribute as written *)
@@ -115,12 +145,20 @@ Definition parse_skip (l : list ty) : bool :=
 Definition parse_forward (l : list ty) : bool :=
   match l with [t] => is_word t W_FORWARD | _ => false end.
 
+(* <ConsiderLegacySyntax as attr::Parser>::parse (from.rs:329-341): when the Types alternative is tried
+   and the argument list starts with a path that is exactly the identifier `types`, the attribute is the
+   legacy `types(..)` form (or malformed) and is always refused (legacy_error, from.rs:344-403);
+   a longer path such as `types::T` is an ordinary type *)
+Definition legacy_types (l : list ty) : bool :=
+  match l with t :: _ => is_word t W_TYPES | [] => false end.
+
 (* Either<Empty, Either<Skip, Either<Forward, Types>>>::parse_attr_with (utils.rs:1614, 2081):
    first alternative that parses wins; Types::parse accepts any list of types *)
 Definition parse_variant_attr (a : raw_attr) : option fattr :=
   match a with
   | APath => Some FEmpty
-  | AArgs l => Some (if parse_skip l then FSkip else if parse_forward l then FForward else FTypes l)
+  | AArgs l => if parse_skip l then Some FSkip else if parse_forward l then Some FForward
+               else if legacy_types l then None else Some (FTypes l)
   end.
 
 (* Either<Forward, Types>::parse_attr_with (utils.rs:1981): a bare `#[from]` on a struct has no
@@ -128,7 +166,7 @@ Definition parse_variant_attr (a : raw_attr) : option fattr :=
 Definition parse_struct_attr (a : raw_attr) : option fattr :=
   match a with
   | APath => None
-  | AArgs l => Some (if parse_forward l then FForward else FTypes l)
+  | AArgs l => if parse_forward l then Some FForward else if legacy_types l then None else Some (FTypes l)
   end.
 
 (* Either::merge_attrs (utils.rs:1624) over Empty/Skip/Forward (all refuse a second attribute,
@@ -276,6 +314,28 @@ Definition from_expand (it : item) : res (list from_impl) :=
       end
   end.
 
+(* the diagnostic of the first listed type that validate_type refuses (None when the expansion fails for
+   another reason - an attribute that does not parse - or does not fail) *)
+Definition expand_one_diag (attr : option fattr) (ftys : list ty) : option vdiag :=
+  match attr with
+  | Some (FTypes tys) => first_some (validate_diag (length ftys)) tys
+  | _ => None
+  end.
+
+Definition from_diag (it : item) : option vdiag :=
+  match it with
+  | IStruct attrs ftys =>
+      match parse_attrs parse_struct_attr None attrs with
+      | None => None
+      | Some a => expand_one_diag a ftys
+      end
+  | IEnum vs =>
+      match parse_all vs with
+      | None => None
+      | Some attrs => first_some (fun va => expand_one_diag (snd va) (v_fields (fst va))) (combine vs attrs)
+      end
+  end.
+
 (* ================================================================== Into *)
 
 Inductive kind := KOwned | KRef | KRefMut.
@@ -288,6 +348,30 @@ Inductive citem : Type :=
 Inductive into_raw : Type :=
 | IPath                        (* #[into] *)
 | IArgs (l : list citem).      (* #[into(...)] *)
+
+(* One argument as the token-level front of ConversionsAttribute::parse sees it (into.rs:373-392): its
+   leading identifier, whether `::` follows it, the parenthesised type list that may follow a keyword,
+   and the type the tokens spell when they are read as a type *)
+Inductive head := HOwned | HRef | HRefMut | HOther.
+Record raw_arg := { ra_head : head; ra_pathsep : bool; ra_group : option (list ty); ra_ty : ty }.
+
+(* into.rs:383-391 (ce243e7): `owned` / `ref` / `ref_mut` is the wrapper keyword only when it is not
+   followed by `::`; everything else is parsed as a type *)
+Definition classify_arg (a : raw_arg) : citem :=
+  if ra_pathsep a then CType (ra_ty a)
+  else match ra_head a with
+       | HOwned => CKind KOwned (ra_group a)
+       | HRef => CKind KRef (ra_group a)
+       | HRefMut => CKind KRefMut (ra_group a)
+       | HOther => CType (ra_ty a)
+       end.
+
+Inductive into_tok : Type :=
+| TPath
+| TArgs (l : list raw_arg).
+
+Definition lex_into (a : into_tok) : into_raw :=
+  match a with TPath => IPath | TArgs l => IArgs (map classify_arg l) end.
 
 (* into.rs:297 Conversions *)
 Record convs := { c_consider : bool; c_tys : list ty }.
@@ -310,7 +394,11 @@ Definition ca_set (k : kind) (x : convs) (c : cattr) : cattr :=
   end.
 
 (* the `while` loop of ConversionsAttribute::parse (into.rs:373-403);
-   state = (out, has_wrapped_type, top_level_type.is_some()) *)
+   state = (out, has_wrapped_type, top_level_type.is_some()).
+   Which argument is a wrapper ([CKind]) and which a type ([CType]) is decided by the leading identifier
+   AND the token after it (into.rs:383-391, since ce243e7): `owned` / `ref` / `ref_mut` followed by `::`
+   starts a type path (`owned::Ty` is a [CType]), otherwise it is the wrapper keyword.  The renderer of the
+   check emits both spellings; the in-process tie compares them with the real parser. *)
 Fixpoint parse_citems (l : list citem) (out : cattr) (wrapped top : bool) : cattr * bool * bool :=
   match l with
   | [] => (out, wrapped, top)
@@ -497,6 +585,46 @@ Definition into_expand (sattrs : list into_raw) (fields : list (ty * list into_r
       end
   end.
 
+Definition expansion_diag (fields : list (nat * ty)) (c : cattr) : option vdiag :=
+  first_some (fun k =>
+    let cv := ca_get k c in
+    if c_consider cv || negb (is_nil (c_tys cv)) then
+      first_some (validate_diag (length fields))
+                 ((if c_consider cv then [TTuple (map snd fields)] else []) ++ c_tys cv)
+    else None) kinds.
+
+(* the expansions of into.rs:83-105 (field-level ones first, then the struct-level one), None = Err *)
+Definition into_expansions (sattrs : list into_raw) (fields : list (ty * list into_raw))
+  : option (list (list (nat * ty) * cattr)) :=
+  match parse_sattrs None sattrs with
+  | None => None
+  | Some sa =>
+      match parse_ifields 0 fields with
+      | None => None
+      | Some fds =>
+          let sa' := match sa with
+                     | Some a => Some a
+                     | None => if forallb (fun f => negb (is_some (if_convs f))) fds
+                               then Some (SConvs cattr_default) else None
+                     end in
+          Some (flat_map (fun f => match if_convs f with
+                                   | Some c => [([(if_idx f, if_ty f)], c)]
+                                   | None => []
+                                   end) fds
+                ++ match sa' with
+                   | Some a => [(nonskipped fds, sattr_convs a)]
+                   | None => []
+                   end)
+      end
+  end.
+
+(* the diagnostic of the first target type that validate_type refuses *)
+Definition into_diag (sattrs : list into_raw) (fields : list (ty * list into_raw)) : option vdiag :=
+  match into_expansions sattrs fields with
+  | None => None
+  | Some es => first_some (fun e => expansion_diag (fst e) (snd e)) es
+  end.
+
 (* ================================================================== Constructor *)
 
 (* constructor.rs:9-52: `new(v_0: T_0, ..)` and a body that initialises the k-th declared field
@@ -626,6 +754,13 @@ Definition into_report (sattrs : list into_raw) (fields : list (ty * list into_r
   | Some ds => Some (map (fun d => (d, into_sem VFrom d (std_input (length fields)))) ds)
   | None => None
   end.
+
+(* the same, from the token-level arguments *)
+Definition into_report_tok (sattrs : list into_tok) (fields : list (ty * list into_tok)) :=
+  let fs := map (fun f => (fst f, map lex_into (snd f))) fields in
+  (into_report (map lex_into sattrs) fs, into_diag (map lex_into sattrs) fs).
+
+Definition from_report_diag (it : item) := (from_report it, from_diag it).
 
 Definition ctor_report (ftys : list ty) : ctor * option (list value) :=
   let c := constructor_expand ftys in (c, ctor_sem c (std_input (length ftys))).
